@@ -83,6 +83,11 @@ P112 == Positions(T1, L1, S2)
 In112(hasObs, mo, mf) == [ts |-> T1, ls |-> L1, ss |-> S2, hasObs |-> hasObs, mo |-> mo, mf |-> mf, bump |-> 0]
 UC01Three(u) == {[inp |-> <<In112(TRUE, a, b), In112(TRUE, c, d), In112(h, {}, f)>>, clim |-> NoClimGen, opt |-> NoOptions]
                : a \in SUBSET P112, b \in SUBSET P112, c \in SUBSET P112, d \in SUBSET P112, f \in SUBSET P112, h \in BOOLEAN}
+\* an obs-less input in first or middle position, followed by an input with its own (partly missing) observations
+UC01Mid(u) == {[inp |-> <<In112(TRUE, a, b), In112(FALSE, {}, d), In112(TRUE, e, f)>>, clim |-> NoClimGen, opt |-> NoOptions]
+                 : a \in SUBSET P112, b \in SUBSET P112, d \in SUBSET P112, e \in SUBSET P112, f \in SUBSET P112}
+         \cup {[inp |-> <<In112(FALSE, {}, b), In112(TRUE, c, d), In112(TRUE, e, f)>>, clim |-> NoClimGen, opt |-> NoOptions]
+                 : b \in SUBSET P112, c \in SUBSET P112, d \in SUBSET P112, e \in SUBSET P112, f \in SUBSET P112}
 \* climatology on a 1x1x2 grid with its own missing cells, subtract and divide
 ClimGen(mf, mode, type) == [on |-> TRUE, ts |-> T1, ls |-> L1, ss |-> S2, hasObs |-> FALSE, mo |-> {}, mf |-> mf,
                             mode |-> mode, type |-> type]
@@ -92,6 +97,7 @@ UC01Clim(u) == {[inp |-> <<In112(TRUE, a, b), In112(TRUE, c, d)>>, clim |-> Clim
 
 ---------------------------------------------------------------------------
 (* C02: coordinates in arbitrary, mutually different orders, extra entries, repeated entries *)
+WithOpt(O1, name, v) == [[O1 EXCEPT !.given = @ \cup {name}] EXCEPT ![name] = v]
 FullIn(ts, ls, ss) == [ts |-> ts, ls |-> ls, ss |-> ss, hasObs |-> TRUE, mo |-> {}, mf |-> {}, bump |-> 0]
 \* all ordered sub-lists (length 1..3) of a 3-element pool
 OrderedSubs(P) == {<<P[a]>> : a \in 1..3} \cup {<<P[x[1]], P[x[2]]>> : x \in {y \in (1..3) \X (1..3) : y[1] # y[2]}}
@@ -109,6 +115,11 @@ UC02Dim(Subs(_)) ==
 \cup {[inp |-> <<FullIn(Ta, x, Sa), FullIn(Tb, y, Sb)>>, clim |-> NoClimGen, opt |-> NoOptions] : x \in Subs(LP3), y \in Subs(LP3)}
 \cup {[inp |-> <<FullIn(Ta, La, x), FullIn(Tb, Lb, y)>>, clim |-> NoClimGen, opt |-> NoOptions] : x \in Subs(SP3), y \in Subs(SP3)}
 UC02Order(u) == UC02Dim(OrderedSubs)
+\* the same time orders under a date / hour-of-day / time selection (indices are recomputed after -d and -tod)
+UC02Sel(u) == {[inp |-> <<FullIn(x, La, Sa), FullIn(y, Lb, Sb)>>, clim |-> NoClimGen, opt |-> o]
+                 : x \in OrderedSubs(TP3), y \in OrderedSubs(TP3),
+                   o \in {WithOpt(NoOptions, "tod", {0}), WithOpt(NoOptions, "d", {20120101}),
+                          WithOpt(NoOptions, "t", {TimePool[3], TimePool[1]})}}
 RepOrPlain(P) == RepeatSubs(P) \cup {<<P[1], P[2]>>, <<P[3], P[2], P[1]>>}
 UC02Repeat(u) == {g \in UC02Dim(RepOrPlain) : TRUE}
 \* all three dimensions vary together over a reduced menu, three inputs
@@ -139,8 +150,6 @@ OptMenu ==
    lonrange |-> {<<-180, 360>>, <<20, 200>>, <<0, 40>>, <<300, 310>>},
    elevrange |-> {<<-10, 1000>>, <<100, 200>>, <<300, 300>>, <<50, 60>>},
    obsrange |-> {<<R(0), R(99999)>>, <<R(1122), R(1233)>>, <<R(1211), R(1211)>>, <<R(1), R(2)>>}]
-WithOpt(O1, name, v) ==
-  [[O1 EXCEPT !.given = @ \cup {name}] EXCEPT ![name] = v]
 OptSets(k) ==   \* all option records with at most k options given
   LET Ext(O1) == {O1} \cup UNION {{WithOpt(O1, n, v) : v \in OptMenu[n]} : n \in OptionNames \ O1.given}
       K0 == {NoOptions}
@@ -196,11 +205,13 @@ Universe(u) ==
     [] Family = "C01NoObs"  -> UC01NoObs(0) \cup UC01NoObs1(0)
     [] Family = "C01Three"  -> UC01Three(0)
     [] Family = "C01Clim"   -> UC01Clim(0)
+    [] Family = "C01Mid"    -> UC01Mid(0)
     [] Family = "C18Quick"  -> UC18Quick(0)
     [] Family = "C18One"    -> {[inp |-> <<In212(TRUE, {<<1, 1, 1>>}, {<<1, 1, 2>>}), In212(TRUE, {<<2, 1, 1>>}, {})>>, clim |-> NoClimGen, opt |-> NoOptions]}
     [] Family = "C18Full"   -> UC01Full(0)
     [] Family = "C18Mix"    -> UC18Mix(0)
     [] Family = "C02Order"  -> UC02Order(0)
+    [] Family = "C02Sel"    -> UC02Sel(0)
     [] Family = "C02Repeat" -> UC02Repeat(0)
     [] Family = "C02All"    -> UC02All(0)
     [] Family = "C02Three"  -> UC02Three(0)
